@@ -176,22 +176,70 @@ func runTAB01(p *Prog, r *RuleRun) {
 		}
 		r.Check(found, "reader-extracts:"+f, p.Position(rd.Pos()), "header field "+f+" is read back", "the header reader never extracts "+f+": validation against metadata cannot notice a foreign segment")
 	}
-	// validation compares all three
-	cmp := map[string]bool{}
-	ast.Inspect(va.Body, func(n ast.Node) bool {
-		be, ok := n.(*ast.BinaryExpr)
-		if !ok || be.Op != token.NEQ {
-			return true
-		}
-		l, lok := be.X.(*ast.SelectorExpr)
-		rr, rok := be.Y.(*ast.SelectorExpr)
-		if lok && rok && l.Sel.Name == rr.Sel.Name {
-			cmp[l.Sel.Name] = true
-		}
-		return true
-	})
+	// validation compares all three: on every path of the validator that ends in success, header field F was
+	// compared with the expected F and found equal (walked with the engine, so a table-driven loop over
+	// {got, expect} pairs is followed like three ifs)
+	vfn := p.Func("segment", va.Name.Name)
+	if vfn == nil || len(vfn.Params) != 2 {
+		r.Unknown("validate:anchor", p.Position(va.Pos()), "SSA function of the header validator not found")
+		return
+	}
+	cmp := map[string]bool{"BaseIndex": true, "ID": true, "Codec": true}
+	nSuccess := 0
+	vspec := &OrdSpec{Name: "header-validate",
+		Call:  func(cx *Ctx, ci ssa.CallInstruction) CallInfo { return CallInfo{Primitive: true, Infallible: false} },
+		Value: func(cx *Ctx, v ssa.Value, f *Fact) (AV, bool) {
+			var base ssa.Value
+			var fv *types.Var
+			switch x := v.(type) {
+			case *ssa.Field:
+				base, fv = x.X, fieldOfAddr(x)
+			case *ssa.UnOp:
+				if fa, ok := x.X.(*ssa.FieldAddr); ok && x.Op == token.MUL {
+					base, fv = fa.X, fieldOfAddr(fa)
+				}
+			}
+			if base == nil || fv == nil {
+				return AV{}, false
+			}
+			if i := paramIndexOf(vfn, base); i >= 0 {
+				return AV{Tag: fmt.Sprintf("~p%d:%s", i, fv.Name())}, true
+			}
+			return AV{}, false
+		},
+		OnBranch: func(cx *Ctx, ifi *ssa.If, truth bool, f *Fact) {
+			bo, ok := ifi.Cond.(*ssa.BinOp)
+			if !ok || (bo.Op != token.EQL && bo.Op != token.NEQ) {
+				return
+			}
+			tx, ty := cx.Eval(bo.X, f).Tag, cx.Eval(bo.Y, f).Tag
+			if !strings.HasPrefix(tx, "~p") || !strings.HasPrefix(ty, "~p") || tx[:3] == ty[:3] {
+				return
+			}
+			fx, fy := tx[strings.Index(tx, ":")+1:], ty[strings.Index(ty, ":")+1:]
+			if fx != fy {
+				return
+			}
+			if (bo.Op == token.EQL) == truth {
+				f.TS["eq:"+fx] = "1"
+			}
+		},
+		OnReturn: func(cx *Ctx, ret *ssa.Return, class RetClass, f *Fact) {
+			if class != RetSuccess {
+				return
+			}
+			nSuccess++
+			for fld := range cmp {
+				if f.TS["eq:"+fld] != "1" {
+					cmp[fld] = false
+				}
+			}
+		}}
+	veng := newOrdEngine(p, vspec)
+	veng.RunRoot(vfn, nil)
+	finishEngine(r, veng)
 	for _, f := range []string{"BaseIndex", "ID", "Codec"} {
-		r.Check(cmp[f], "validate:"+f, p.Position(va.Pos()), "header validation compares "+f+" with metadata", "header validation does not compare "+f+": a file belonging to another segment/codec would be accepted")
+		r.Check(cmp[f] && nSuccess > 0, "validate:"+f, p.Position(va.Pos()), "header validation compares "+f+" with metadata (on every path that accepts the header)", "header validation accepts a header on a path that did not find "+f+" equal to the metadata's: a file belonging to another segment/codec would be accepted")
 	}
 }
 
